@@ -478,6 +478,10 @@ class Composition:
             finished[t] = z3.Or(fi) if fi else z3.BoolVal(False)
         s.add(NgetQp == z3.Sum([z3.If(ex, 1, 0) for ex, _, _ in wgets] + [z3.IntVal(0)]))
         s.add(NputQr == z3.Sum([z3.If(ex, 1, 0) for ex, _, _ in wputs] + [z3.IntVal(0)]))
+        if len(wgets) > 1000 or len(wputs) > 1000:
+            # the pairwise FIFO constraints are quadratic: beyond this the composition is not built within any budget
+            raise Inconclusive(f"composition too large ({len(wgets)} get / {len(wputs)} put events over all thread paths): "
+                               f"the per-thread summaries of this configuration exploded")
         for lst in (wgets, wputs):
             for a in range(len(lst)):
                 for b in range(a + 1, len(lst)):
@@ -666,8 +670,22 @@ def replay_schedule(sched, watchdog_s=6.0):
 
     def consume():
         names[threading.get_ident()] = "c"
+        box = {}
+        try:
+            try:
+                _consume(box)
+            except Exception as exc:  # noqa: BLE001 - an exception that is neither the consumer's own nor the mapped function's
+                result["foreign_exception"] = f"{type(exc).__name__}: {exc}"
+                result["finished"] = True
+        finally:
+            pool = box.get("pool")
+            if pool is not None and all(hasattr(pool, a) for a in ("_active_threads", "_to_process", "_results")):
+                result["pool_state_ok"] = bool(pool._active_threads <= 0 and pool._to_process is None and pool._results is None)
+
+    def _consume(box):
         try:
             with lp.LazyPool(T) as pool:
+                box["pool"] = pool
                 for r in pool.imap_unordered(f, range(n)):
                     result["emitted"].append(r)
                     if early is not None and len(result["emitted"]) == early:
